@@ -9,6 +9,7 @@ import OrasModel.Proofs.OciTags
 import OrasModel.Proofs.OciCascade
 import OrasModel.Proofs.OciGc
 import OrasModel.Proofs.OciGcSound
+import OrasModel.Proofs.OciCascadeComplete
 import OrasModel.Gen.Facts
 namespace Oras.Props.C09
 open Oras Oras.OciSt
@@ -264,6 +265,60 @@ theorem c09_cascade_step_complete (c : OciCfg) (st st' : OciSt) (h : Node) (rs d
   rw [hdang]
   rw [hgraph] at he
   exact dangling_complete st.graph h d hs hn he
+
+/-- **The cascade is complete**: when `Delete` with auto-GC succeeds, no stored untagged node
+    is left that lost — through this call — the manifest it refers to (its subject was stored
+    before the call and is gone now) or its last predecessor (it had predecessors before the
+    call and has none now).  For every graph, every target, any fuel with which the call
+    succeeds.  With `c09_cascade_justified` (nothing else is removed) and
+    `c09_cascade_keeps_tagged` this is the "exactly" of the statement.  `CInv`: references are
+    unique, tag sets are exact and duplicate-free, no blob is stored twice — the invariants of
+    every reachable state (`c09_invariants_init`, `c09_invariants_tag`,
+    `c09_tags_exact_reachable`; `Push` refuses content that is present). -/
+theorem c09_cascade_complete (c : OciCfg) (st : OciSt) (n : Node) (fuel : Nat)
+    (hgc : st.autoGC = true) (hI : CInv st)
+    (hok : (st.delete c true true n fuel).2.1 = .ok ()) :
+    ∀ x, ¬ Owes c st (st.delete c true true n fuel).1 x := by
+  unfold delete at hok ⊢
+  cases hr : deleteLoop c true true fuel [n] [] st with
+  | mk st' rest =>
+    obtain ⟨res, seen'⟩ := rest
+    rw [hr] at hok
+    simp only at hok
+    subst hok
+    apply deleteLoop_complete c st fuel [n] [] st st' seen' hgc hI (fun _ h => h) _ hr
+    -- nothing is owed before the call
+    intro x hx
+    obtain ⟨_, _, hcase⟩ := hx
+    rcases hcase with ⟨s, _, _, _, hs0, hs1⟩ | ⟨_, hp0, hp1⟩
+    · exact absurd hs0 hs1
+    · exact absurd hp1 hp0
+
+/-- Non-vacuity of `c09_cascade_complete`: a tagged manifest 9 over a layer 1 — the invariants
+    hold, `Delete 9` with auto-GC succeeds, and the layer, which lost its last predecessor, is
+    gone as well. -/
+example :
+    let c : OciCfg := ⟨fun n => if n = 9 then [1] else [], fun n => n == 9, fun _ => none⟩
+    let st : OciSt := { OciSt.empty with
+      blobs := [9, 1], refs := [(.tag 0, 9, 0), (.dig 9, 9, 0)],
+      tagsOf := fun m => if m = 9 then [.dig 9, .tag 0] else [],
+      graph := (GMem.empty.index 1 []).index 9 [1] }
+    CInv st ∧ st.autoGC = true ∧ (st.delete c true true 9 5).2.1 = .ok () ∧ (st.delete c true true 9 5).1.blobs = [] := by
+  intro c st
+  refine ⟨⟨by unfold RefUniq; decide, ?_, ⟨?_, ?_⟩, by decide⟩, by rfl, by rfl, by rfl⟩
+  · intro e he
+    simp [st] at he
+    rcases he with h | h <;> subst h <;> decide
+  · intro n k hk
+    by_cases h9 : n = 9
+    · subst h9
+      simp [st] at hk
+      rcases hk with h | h <;> subst h <;> exact ⟨0, by decide⟩
+    · simp [st, h9] at hk
+  · intro n
+    by_cases h9 : n = 9
+    · subst h9; decide
+    · simp [st, h9]
 
 /-- **`GC` never removes live content**: when `Store.GC` succeeds, every stored blob or
     manifest reachable from a tagged manifest through stored manifests is still stored —
